@@ -164,6 +164,14 @@ impl<F: FileSystem + Sync> Conn<F> {
     fn op(&mut self, name: &str, nodeid: u64, b: &Body) -> Reply {
         self.raw(kconst(name) as u32, nodeid, &b.b)
     }
+    /// like `op`, with a reply buffer that holds `payload` bytes on top of the header whatever the default capacity is
+    /// (what a kernel client does: the reply buffer of READ / READDIR is sized after the request)
+    fn op_sized(&mut self, name: &str, nodeid: u64, b: &Body, payload: usize) -> Reply {
+        self.unique += 2;
+        let req = header(kconst(name) as u32, self.unique, nodeid, self.uid, self.gid, self.pid, &b.b);
+        let cap = self.cap.max(payload + 4096);
+        self.raw_bytes(&req, cap)
+    }
     fn entry(rep: Reply) -> Result<EntryV, i32> {
         if rep.errno != 0 {
             return Err(rep.errno);
@@ -351,7 +359,7 @@ impl<F: FileSystem + Sync> Conn<F> {
         b.set(s, "fuse_read_in", "offset", off);
         b.set(s, "fuse_read_in", "size", size as u64);
         b.set(s, "fuse_read_in", "flags", flags as u64);
-        let rep = self.op("FUSE_READ", ino, &b);
+        let rep = self.op_sized("FUSE_READ", ino, &b, size as usize);
         if rep.errno != 0 {
             return Err(rep.errno);
         }
@@ -450,7 +458,7 @@ impl<F: FileSystem + Sync> Conn<F> {
         b.set(s, "fuse_read_in", "fh", fh);
         b.set(s, "fuse_read_in", "offset", off);
         b.set(s, "fuse_read_in", "size", size as u64);
-        let rep = self.op(if plus { "FUSE_READDIRPLUS" } else { "FUSE_READDIR" }, ino, &b);
+        let rep = self.op_sized(if plus { "FUSE_READDIRPLUS" } else { "FUSE_READDIR" }, ino, &b, size as usize);
         if rep.errno != 0 {
             return Err(rep.errno);
         }
